@@ -6,6 +6,7 @@ From Coq Require Import List QArith Reals Qreals Lia Arith Bool ZArith.
 From NV Require Import Scalar.Ops Model.Common Model.Basis Model.Knots Model.KnotIns Model.InsertKnot Model.Split
   Proofs.BasisR Proofs.KnotsR Proofs.KnotInsR Proofs.SplitR Proofs.SplitBezier Run.Harness.
 From NV Require Import Proofs.Boehm Proofs.InsertKnotR Proofs.InsertDirR Proofs.SplitLocal Proofs.SplitCoincide Proofs.SplitCount Proofs.SplitSurf Proofs.SplitExamples.
+From NV Require Import Proofs.SplitSurfDecompose.
 Import ListNotations.
 
 (* [G] splitting at a domain end is rejected: curve, surface u, surface v; all shapes, all tolerances *)
@@ -323,3 +324,60 @@ Theorem C07_split_surface_v_coincide :
           InsertDirR.surf_pt g c x y).
 Proof. exact split_surface_v_coincide. Qed.
 Print Assumptions C07_split_surface_v_coincide.
+
+(* ====================== round 2 (Proofs/SplitSurfDecompose.v): decomposition of surfaces in u, v and uv ====================== *)
+(* [G] decompose_surface(decompose_dir='u'): never rejected; one patch per non-empty u-knot interval, in order; every patch
+   Bezier in u (u_patch_shape), v direction untouched up to the setter's normalisation; patch j coincides with the original
+   on [b_j, b_{j+1}) x (all v) under the affine maps of its own domain (u_strips_coincide).
+   dir_dec_hyps tol p U n = the hypotheses of C07_decompose_count on (p, U, n) *)
+Theorem C07_decompose_surface_u : forall tol (g : @surf R) dim,
+  dir_dec_hyps tol (s_pu g) (s_Uu g) (s_su g) -> dir_keep_hyps (s_pv g) (s_Uv g) (s_sv g) ->
+  (forall i, (i < s_sv g * s_su g)%nat -> length (getp (s_P g) i) = dim) ->
+  exists l, decompose_surface Rops tol 0 g = Ok l /\
+    length l = S (length (dedup (interior_knots (s_pu g) (s_Uu g)))) /\
+    Forall (u_patch_shape dim g) l /\ u_strips_coincide dim g l.
+Proof. exact decompose_surface_u. Qed.
+Print Assumptions C07_decompose_surface_u.
+
+(* [G] the same for decompose_dir='v' *)
+Theorem C07_decompose_surface_v : forall tol (g : @surf R) dim,
+  dir_dec_hyps tol (s_pv g) (s_Uv g) (s_sv g) -> dir_keep_hyps (s_pu g) (s_Uu g) (s_su g) -> (0 < s_su g)%nat ->
+  (forall i, (i < s_sv g * s_su g)%nat -> length (getp (s_P g) i) = dim) ->
+  exists l, decompose_surface Rops tol 1 g = Ok l /\
+    length l = S (length (dedup (interior_knots (s_pv g) (s_Uv g)))) /\
+    Forall (v_patch_shape dim g) l /\ v_strips_coincide dim g l.
+Proof. exact decompose_surface_v. Qed.
+Print Assumptions C07_decompose_surface_v.
+
+(* [G] decompose_dir='uv' (the default): one patch per pair of non-empty knot intervals, ordered u outer / v inner
+   (patch j + nv * i <-> [bu_i, bu_{i+1}) x [bv_j, bv_{j+1})), Bezier in both directions, coinciding with the original on
+   its rectangle *)
+Theorem C07_decompose_surface_uv : forall tol (g : @surf R) dim,
+  dir_dec_hyps tol (s_pu g) (s_Uu g) (s_su g) -> dir_dec_hyps tol (s_pv g) (s_Uv g) (s_sv g) ->
+  (forall i, (i < s_sv g * s_su g)%nat -> length (getp (s_P g) i) = dim) ->
+  exists l, decompose_surface Rops tol 2 g = Ok l /\
+    length l = (S (length (dedup (interior_knots (s_pu g) (s_Uu g)))) *
+                S (length (dedup (interior_knots (s_pv g) (s_Uv g)))))%nat /\
+    Forall (uv_patch_shape dim g) l /\ uv_patches_coincide dim g l.
+Proof. exact decompose_surface_uv. Qed.
+Print Assumptions C07_decompose_surface_uv.
+
+(* [G] the counts in the form of C07_decompose_count *)
+Theorem C07_decompose_surface_count : forall tol (g : @surf R) dim dsu dsv,
+  dir_dec_hyps tol (s_pu g) (s_Uu g) (s_su g) -> dir_dec_hyps tol (s_pv g) (s_Uv g) (s_sv g) ->
+  (forall i, (i < s_sv g * s_su g)%nat -> length (getp (s_P g) i) = dim) ->
+  NoDup dsu -> (forall x, In x dsu <-> In x (interior_knots (s_pu g) (s_Uu g))) ->
+  NoDup dsv -> (forall x, In x dsv <-> In x (interior_knots (s_pv g) (s_Uv g))) ->
+  exists lu lv luv,
+    decompose_surface Rops tol 0 g = Ok lu /\ length lu = S (length dsu) /\
+    decompose_surface Rops tol 1 g = Ok lv /\ length lv = S (length dsv) /\
+    decompose_surface Rops tol 2 g = Ok luv /\ length luv = (S (length dsu) * S (length dsv))%nat.
+Proof. exact decompose_surface_count. Qed.
+Print Assumptions C07_decompose_surface_count.
+
+(* the hypotheses are satisfiable: bilinear 3 x 2 surface, u-knots 0 0 1 2 2, v-knots 0 0 3 3, tol = 0 *)
+Example C07_decompose_surface_hyps_satisfiable :
+  dir_dec_hyps 0 (s_pu exS) (s_Uu exS) (s_su exS) /\ dir_dec_hyps 0 (s_pv exS) (s_Uv exS) (s_sv exS) /\
+  (forall i, (i < s_sv exS * s_su exS)%nat -> length (getp (s_P exS) i) = 1%nat) /\
+  interior_knots (s_pu exS) (s_Uu exS) = [1].
+Proof. exact decompose_surface_hyps_satisfiable. Qed.
